@@ -200,3 +200,14 @@ package tlv
 //@   props C10
 //@   loop * havoc
 //@   bounds-safe
+//@
+//@ // ---- a BigSize record consists of exactly its value: it is accepted only if the declared record length is the size of the
+//@ // ---- decoded value, and only if the value fits the target (finding F28: the length was ignored, the rest of the declared length
+//@ // ---- was parsed as the following records; a value above 2^32-1 was truncated into a uint32 target)
+//@ func DBigSize
+//@   props C10
+//@   requires buf != nil
+//@   site call VarIntSize nth 0: assert arg(0) == retn(ReadVarInt, 0, 0)
+//@   site call VarIntSize nth 2: assert arg(0) == retn(ReadVarInt, 0, 1)
+//@   site return nil nth 2: assert retn(ReadVarInt, 1, 0) == nil && ret(VarIntSize, 0) == l && retn(ReadVarInt, 0, 0) <= 4294967295
+//@   site return nil nth 5: assert retn(ReadVarInt, 1, 1) == nil && ret(VarIntSize, 2) == l
